@@ -136,6 +136,31 @@ Section Run.
            sbool (query_ok q'); sbool (forallb (name_wf h xm) axl)]
     | _ => A (-1)
     end.
+
+  (* compact form: the queries of a case are sent once; a search is (kind axis start query-index limit?) with
+     kind 0 plural / 1 singular / 2 tag(...); the answer carries the model's result and call log, the
+     specification's result on the same axis, and the two domain flags *)
+  Definition run_search2 (qs : list sexp) (s : sexp) : sexp :=
+    match gL s with
+    | [A k; ax; x; qi; lim] =>
+        let q0 := g_query (nth (gnat qi) qs (L [])) in
+        let q := with_limit q0 (gopt gnat lim) in
+        let a := g_axis ax in
+        let q' := method_query a (if Z.eqb k 1 then with_limit q0 None else q) in
+        let axl := axis_list h fuel a (gnat x) in
+        let spec := [slist snat (find_all_spec (plook pt) (flook ft) h xm fuel q' axl);
+                     sbool (query_ok q'); sbool (forallb (name_wf h xm) axl)] in
+        if Z.eqb k 1 then
+          let '(r, lg) := find_method (plook pt) (flook ft) h xm fuel a (gnat x) q0 in
+          L (sopt snat r :: s_log lg :: spec)
+        else if Z.eqb k 2 then
+          let '(r, lg) := call_m (plook pt) (flook ft) h xm fuel (gnat x) (Z.eqb (gZ ax) 0) q in
+          L (slist snat r :: s_log lg :: spec)
+        else
+          let '(r, lg) := find_all_method (plook pt) (flook ft) h xm fuel a (gnat x) q in
+          L (slist snat r :: s_log lg :: spec)
+    | _ => A (-1)
+    end.
 End Run.
 
 (* (10000 cells ext ftab ptab searches) -> (result ...) *)
@@ -148,8 +173,19 @@ Definition cmd_c10_search (args : list sexp) : sexp :=
   | _ => A (-1)
   end.
 
+(* (10001 cells ext ftab ptab queries searches) -> (result ...) *)
+Definition cmd_c10_search2 (args : list sexp) : sexp :=
+  match args with
+  | cells :: ext :: ft :: pt :: qs :: searches :: _ =>
+      let cs := glist g_cell cells in
+      slist (run_search2 (g_ptab pt) (g_ftab ft) (heap_of cs) (xmap_of (glist g_tagx ext)) (S (length cs)) (gL qs))
+            (gL searches)
+  | _ => A (-1)
+  end.
+
 Definition disp_c10 (sub : Z) (args : list sexp) : sexp :=
   match sub with
   | 0 => cmd_c10_search args
+  | 1 => cmd_c10_search2 args
   | _ => A (-2)
   end.
